@@ -63,7 +63,7 @@ def floors(tier):
                         "radius:200": 200 * m,
                         "edge:horizontal-leg": 100 * m, "edge:vertical-leg": 100 * m, "edge:midvertex": 300 * m,
                         "edge:oneway": 300 * m,
-                        "matched-on:horizontal-leg-edge": 50 * m},
+                        "matched-on:horizontal-leg-edge": 50 * m, "edge_geometries_of_100+_vertices": 10 * m},
             # ... counters count fixes
             "counters": {"fix:on": 2000 * m, "fix:near": 2000 * m, "fix:vertex": 500 * m, "fix:far": 500 * m,
                          "fix:gridline": 500 * m, "fix:off": 100 * m,
@@ -148,6 +148,21 @@ def _gen_network(rng):
         pa, pb = nodes[0], nodes[1]
         edges.append({"id": eid, "s": 0, "t": 1, "pts": [list(pa), list(pb)], "o": 0})
     rng.shuffle(edges)
+    dense = rng.random() < 0.04
+    if dense:
+        # larger scale: edge geometries of 100+ vertices (a digitised road: every leg is subdivided into collinear
+        # pieces, so the geometry and its exact alignments are the same)
+        for e in edges:
+            nv = rng.choice([101, 130, 350, 520])
+            legs = len(e["pts"]) - 1
+            k = -(-nv // legs)
+            pts = []
+            for a, b in zip(e["pts"], e["pts"][1:]):
+                for m in range(k):
+                    pts.append([a[0] + (b[0] - a[0]) * m / k if b[0] != a[0] else a[0],
+                                a[1] + (b[1] - a[1]) * m / k if b[1] != a[1] else a[1]])
+            pts.append(list(e["pts"][-1]))
+            e["pts"] = pts
     # spatial index
     xs = [p[0] for e in edges for p in e["pts"]]
     ys = [p[1] for e in edges for p in e["pts"]]
@@ -166,12 +181,14 @@ def _gen_network(rng):
             res[1] *= 0.5
     margin = rng.choice([0.05, 0.15, 0.5, 1.0])
     return {"flavour": flavour, "sp": sp, "nodes": {str(k): v for k, v in nodes.items()}, "edges": edges,
-            "index": {"kind": ik, "resolution": res, "margin": margin}}
+            "index": {"kind": ik, "resolution": res, "margin": margin}, "dense": dense}
 
 
 def _point_on(rng, e):
     pts = e["pts"]
     i = rng.randrange(len(pts) - 1)
+    if len(pts) > 100 and rng.random() < 0.4:
+        i = rng.choice([rng.randrange(0, 12), rng.randrange(len(pts) - 13, len(pts) - 1)])   # near an end of a long edge
     t = rng.choice([rng.random(), 0.5, 0.25, rng.uniform(0, 0.03), rng.uniform(0.97, 1)])
     a, b = pts[i], pts[i + 1]
     return [a[0] + t * (b[0] - a[0]), a[1] + t * (b[1] - a[1])]
@@ -428,6 +445,8 @@ def _run_matching(case, network, mt, mi, ctx, cls, stats):
 def run_case(case, ctx):
     net = case["net"]
     cls = set(["net:" + net["flavour"], "index:" + net["index"]["kind"]])
+    if net.get("dense"):
+        cls.add("edge_geometries_of_100+_vertices")
     if any(_has_vertical_leg(e) for e in net["edges"]):
         cls.add("edge:vertical-leg")
     if any(_has_horizontal_leg(e) for e in net["edges"]):
